@@ -191,9 +191,13 @@ def readme():
     caught = sum(1 for name in res if name.split('-')[0] in res[name] and not str(res[name][name.split('-')[0]]).startswith("['ANALYSIS"))
     head = f"""# Seeded changes: what they are, what they need, which checks catch them
 
-{n} changes written by independent sub-agents (rounds of 20 properties × 2), each given only the property text and a scratch worktree of /repo.
-Every one was confirmed by me in its scratch worktree before being kept: demo passes on the clean tree, fails with the patch, full suite unchanged (219 passed / 44 failed).
-Suffix = round: A,B round 1 · C,D round 2 · E,F round 3 · G,H round 4 · I,J round 5.
+{n} changes. Suffix A..L, N, O: written by independent sub-agents (rounds of 20 properties × 2), each given only the property text and a scratch
+worktree of /repo. Suffix Mnnnn: single-point mutants of the mutation sweep (`tools_sweep.py`; M0nnn first generation, M2nnn / M3nnn second) that no check
+and no test noticed, classified as violations and demonstrated by independent sub-agents.
+Every one was confirmed by me in its scratch worktree before being kept: demo passes on the clean tree, fails with the patch, full suite unchanged (219 passed / 44 failed)
+(for the django / starlette handlers, which cannot be run here, the demo drives the real handler through an in-memory stand-in of the framework).
+Suffix = round: A,B round 1 · C,D round 2 · E,F round 3 · G,H round 4 · I,J round 5 · K,L round 6 · N,O round 7.
+`_residue/` holds confirmed violations the checks do not decide (third-party semantics).
 `first run` is the verdict of the checks as they were when the change arrived (before any strengthening for that round).
 `caught now by` lists, per property check, the rules that report the change on the current machinery (`tools_seeded.py readme`: each patch applied to a scratch copy of
 /repo's working tree, all 20 checks run on it through PJX_REPO; the thorough tier of every check re-evaluates its own seeds in memory on every run and records them in the evidence).
